@@ -279,7 +279,7 @@ def _conv_addr(code):
     return re.sub(r'(?:(?<=^)|(?<=[\(,=\[:+\-*/])|(?<=[\(,=\[:+\-*/]\s)|(?<=[\(,=\[:+\-*/]\s\s))&\s*([A-Za-z_][\w\.]*)((?:\[(?:[^\[\]]|\[[^\]]*\])*\])*)', rep, code)
 
 
-def _conv_decl(line):
+def _conv_decl(line, cells=frozenset()):
     """returns list of python lines (possibly empty) for a `cdef <type> ...` declaration line, or None if not a declaration"""
     m = _DECL.match(line)
     if not m:
@@ -302,12 +302,49 @@ def _conv_decl(line):
             continue
         if '=' in part and not re.match(r'^\w+\s*==', part):
             nm, val = part.split('=', 1)
-            out.append('%s%s = %s' % (ind, nm.strip(), val.strip()))
+            if nm.strip() in cells:
+                out.append('%s%s = Ref(%s)' % (ind, nm.strip(), val.strip()))
+            else:
+                out.append('%s%s = %s' % (ind, nm.strip(), val.strip()))
+        elif part in cells:
+            out.append('%s%s = Ref(None)' % (ind, part))
         # pure declaration: nothing
     return out
 
 
+def _addr_scalars(body_lines):
+    """locals whose address is taken as a whole (`&name`, no index) and that are declared as scalars in this body: they become Ref cells"""
+    text = '\n'.join(strip_comment(l) for l in body_lines)
+    taken = set(re.findall(r'&\s*([A-Za-z_]\w*)\b(?!\s*[\[\.\w])', text))
+    declared = set()
+    for m in re.finditer(r'^\s*cdef\s+' + CTYPE + r'\s*\**\s*([^\n=\[]*?)\s*(?:=.*)?$', text, flags=re.M):
+        for nm in m.group(1).split(','):
+            nm = nm.strip().lstrip('*').strip()
+            if re.match(r'^[A-Za-z_]\w*$', nm):
+                declared.add(nm)
+    return taken & declared
+
+
 def translit_body(body_lines):
+    cells = _addr_scalars(body_lines)
+    out = _translit_body(body_lines, cells)
+    if not cells:
+        return out
+    res = []
+    for ln in out:
+        m = re.match(r'^(\s*)(\w+) = Ref\(', ln)
+        decl_name = m.group(2) if m and m.group(2) in cells else None
+        for nm in cells:
+            if nm == decl_name:
+                continue
+            ln = re.sub(r'addr\(%s\)' % nm, '@@CELL_%s@@' % nm, ln)
+            ln = re.sub(r'(?<![\w\.])%s\b(?!\s*=\s*Ref\()' % nm, nm + '.v', ln)
+            ln = ln.replace('@@CELL_%s@@' % nm, nm)
+        res.append(ln)
+    return res
+
+
+def _translit_body(body_lines, cells=frozenset()):
     # join continuation lines (backslash or open parens) so that declarations can be handled as one logical line
     logical = []
     buf = ''
@@ -338,7 +375,7 @@ def translit_body(body_lines):
         ind = len(ln) - len(ln.lstrip())
         if in_cdef_block is not None:
             if ind > in_cdef_block:
-                d = _conv_decl(' ' * in_cdef_block + 'cdef ' + ln.strip())
+                d = _conv_decl(' ' * in_cdef_block + 'cdef ' + ln.strip(), cells)
                 if d is None:
                     raise SyntaxError('cdef block line not understood: ' + ln)
                 out += d
@@ -349,7 +386,7 @@ def translit_body(body_lines):
             continue
         if re.match(r'^\s*(from\s+\S+\s+)?cimport\b', ln):
             continue
-        d = _conv_decl(ln)
+        d = _conv_decl(ln, cells)
         if d is not None:
             out += [_post(x) for x in d]
             continue
